@@ -243,3 +243,16 @@ def run(ctx):
     ctx.cov['binding_demo'].append(dict(spec='TraceDecodeOutcome', fault_rejected=[l for l, _ in drej] == [2], missing_obligation_fails=not r2.ok(), ok=ok))
     if not ok:
         raise Inconclusive('binding demo failed for TraceDecodeOutcome')
+
+
+def replay(ctx, path):
+    """re-run the recorded decode job in an isolated worker on the current tree"""
+    d = json.load(open(path))
+    j = d['case']['job']
+    res = corpusarm.run_jobs(ctx, [j], 'replay', mem_kb=MEM_KB, per_job=60, workers=1)
+    r = res[0]
+    ctx.cov['evaluations'] = 1; ctx.cov['distinct_nontrivial'] = 2; ctx.cov['rule'] = 'replay of one recorded decode run'
+    ctx.sample(dict(kind='replayed decode run', job={k: j[k] for k in ('file', 'format', 'force', 'mut')}, outcome=r['outcome']))
+    if r['outcome'] != 'ok':
+        ctx.finding('fault:format=%s:%s:%s:%s' % (j['format'], 'force' if j['force'] else 'noforce', fault_kind(r['msg']) if r['outcome'] != 'hang' else 'hang', top_fq_frame(r['msg'])),
+                    '%s; %s' % (j.get('ob', ''), (r['msg'] or '').strip().split('\n')[0][:160]), dict(job=j, outcome=r['outcome'], msg=(r['msg'] or '')[:3000]))
